@@ -59,9 +59,37 @@ def thorough_extras(ctx, prop: str) -> None:
             if kind != "reformat" and twins.transform(src, kind) == base:
                 continue  # this rewrite has no site in the file
             jobs.append((rel, kind, {prop}))
-    with ProcessPoolExecutor(max_workers=os.cpu_count() or 4) as ex:
+    # the hand-written variants always run; the automatic twins run within a time budget (default 15 min,
+    # GLINT_THOROUGH_BUDGET seconds), interleaved by kind so that every kind is sampled when the budget is short
+    import concurrent.futures as cf
+
+    budget = float(os.environ.get("GLINT_THOROUGH_BUDGET", "900"))
+    by_kind: dict = {}
+    for j in jobs:
+        by_kind.setdefault(j[1], []).append(j)
+    ordered = []
+    while any(by_kind.values()):
+        for k in list(by_kind):
+            if by_kind[k]:
+                ordered.append(by_kind[k].pop(0))
+    jobs_planned = len(ordered)
+    ex = ProcessPoolExecutor(max_workers=os.cpu_count() or 4)
+    try:
         mres = list(ex.map(selftest.run_one, muts))
-        tres = list(ex.map(twins.run_one, jobs))
+        t_start = time.time()
+        futs = [ex.submit(twins.run_one, j) for j in ordered]
+        tres = []
+        try:
+            for fu in cf.as_completed(futs, timeout=budget):
+                tres.append(fu.result())
+        except cf.TimeoutError:
+            pass
+        for fu in futs:
+            fu.cancel()
+    finally:
+        ex.shutdown(wait=False, cancel_futures=True)
+    jobs = ordered[: len(tres)] if len(tres) < jobs_planned else ordered
+    _ = t_start
     survivors = [r for r in mres if r["status"] != "OK"]
     for r in survivors:
         print(f"SELFTEST-{r['status']} {prop} {r['id']} expect={r['expect']} rule={r['rule']}")
@@ -74,12 +102,13 @@ def thorough_extras(ctx, prop: str) -> None:
         "silent_twins_handwritten": sum(1 for m in muts if m["expect"] == "silent"),
         "as_expected": len(mres) - len(survivors),
         "not_as_expected": [f"{r['id']}:{r['status']}" for r in survivors],
-        "automatic_twins": len(jobs),
+        "automatic_twins": len(tres),
+        "automatic_twins_planned": jobs_planned,
         "automatic_twin_false_alarms": alarms,
         "samples": [f"{m['id']} ({m['expect']}, {m.get('rule', '-')})" for m in muts[:8]],
     }
     print(f"selfvalidation {prop}: {len(muts)} hand written variants ({len(survivors)} not as expected), "
-          f"{len(jobs)} automatic twins ({len(alarms)} false alarms)")
+          f"{len(tres)} of {jobs_planned} automatic twins within the time budget ({len(alarms)} false alarms)")
 
 
 def main(argv: list[str] | None = None) -> int:
